@@ -67,13 +67,13 @@ func litExpr(r *rand.Rand, depth int, strLevel int) (*gen.Node, cty.Value) {
 		node := &gen.Node{Kind: gen.KObject}
 		m := map[string]cty.Value{}
 		for i := 0; i < n; i++ {
-			name := gen.Pick(r, []string{"a", "b", "c", "id", "name", "in", "if", "x-y", "é"})
+			name := gen.Pick(r, []string{"a", "b", "c", "id", "name", "in", "if", "x-y", "é", "//", "#", "a b"})
 			if _, dup := m[name]; dup {
 				continue
 			}
 			kn, kv := litExpr(r, depth-1, strLevel)
 			key := gen.ObjKey{Form: gen.KeyIdent, Name: name}
-			if gen.Chance(r, 0.3) {
+			if name == "//" || name == "#" || name == "a b" || gen.Chance(r, 0.3) {
 				key = gen.ObjKey{Form: gen.KeyQuoted, Expr: gen.StrLit(name)}
 			}
 			node.Keys = append(node.Keys, key)
@@ -94,10 +94,43 @@ func litBody(r *rand.Rand, opts gen.BodyOpts) (*gen.Body, map[*gen.Attr]cty.Valu
 }
 
 // litBodyLevel is litBody with a chosen string alphabet level.
+// litHeredocs makes litBodyLevel produce heredoc-valued attributes too (C02 only).
+var litHeredocs bool
+
 func litBodyLevel(r *rand.Rand, strLevel int, opts gen.BodyOpts) (*gen.Body, map[*gen.Attr]cty.Value) {
 	want := map[*gen.Attr]cty.Value{}
 	vals := map[*gen.Node]cty.Value{}
 	opts.ExprFn = func(rr *rand.Rand) *gen.Node {
+		if litHeredocs && gen.Chance(rr, 0.08) {
+			// a heredoc value (plain or flush): what follows it must still be read
+			// as structure, in every line-ending style
+			nl := 1 + rr.Intn(3)
+			var lines []string
+			for i := 0; i < nl; i++ {
+				lines = append(lines, gen.Pick(rr, []string{"text", "two words", "x = 1", "}", "b {", "EOT2", "a  b"}))
+			}
+			marker := gen.Pick(rr, []string{"EOT", "END", "E_1"})
+			var sb strings.Builder
+			val := ""
+			if gen.Chance(rr, 0.5) {
+				sb.WriteString("<<" + marker + "\n")
+				for _, l := range lines {
+					sb.WriteString(l + "\n")
+					val += l + "\n"
+				}
+				sb.WriteString(gen.Pick(rr, []string{"", "  "}) + marker + "\n")
+			} else {
+				sb.WriteString("<<-" + marker + "\n")
+				for _, l := range lines {
+					sb.WriteString("    " + l + "\n")
+					val += l + "\n"
+				}
+				sb.WriteString(gen.Pick(rr, []string{"", "  ", "    "}) + marker + "\n")
+			}
+			n := &gen.Node{Kind: gen.KRaw, Bool: true, Str: sb.String(), Ty: cty.String}
+			vals[n] = cty.StringVal(val)
+			return n
+		}
 		n, v := litExpr(rr, 2, strLevel)
 		vals[n] = v
 		return n
@@ -166,6 +199,10 @@ func compareTree(c *core.Case, hb hcl.Body, b *gen.Body, want map[*gen.Attr]cty.
 		if vd.HasErrors() {
 			return "attribute-value-error", fmt.Sprintf("%s.%s: evaluating the literal fails: %s", path, a.Name, diagStr(vd))
 		}
+		if a.Expr.Kind == gen.KRaw && v.Type() == cty.String && v.IsKnown() && !v.IsNull() {
+			// heredoc text in a CRLF file keeps its carriage returns
+			v = cty.StringVal(strings.ReplaceAll(v.AsString(), "\r\n", "\n"))
+		}
 		if !v.RawEquals(want[a]) {
 			return "attribute-value", fmt.Sprintf("%s.%s: wrote %s, read %s", path, a.Name, valStr(want[a]), valStr(v))
 		}
@@ -206,7 +243,9 @@ func c02Case(c *core.Case) {
 	r := c.Rng
 	labelCounts := map[string]int{}
 	opts := gen.BodyOpts{MaxDepth: 4, MaxItems: 5, MaxLabels: 3, LabelLevel: 2, FixedLabels: labelCounts}
+	litHeredocs = true
 	body, want := litBody(r, opts)
+	litHeredocs = false
 	dup := c.Index%6 == 5
 	if dup {
 		// duplicate one attribute name in a random body that has an attribute
